@@ -1853,6 +1853,98 @@ def anchors(ctx, r):
         r.ok("%s: %s" % (last(f.name), ", ".join(names)))
 
 
+# ------------------------------------------------------------------ R9: a separator-delimited list is scanned to its last element
+
+def r9(ctx, r):
+    """A loop that walks a separator-delimited header value (`sep = X.find(<char>, pos)` … `pos = sep + k`) must examine the element BEHIND
+    the last separator as well — for Content-Length that element decides whether `5,` or `5, ` is a framing error.  After `pos = sep + k`
+    with sep a position find() returned (sep < X.size()), the loop's continuation test is evaluated exactly for every size 0..8 and every
+    such sep: it has to hold, otherwise the scan leaves without having validated the last element."""
+    from ..finite import compile_expr, NotPure
+    fb = ctx.fb()
+    seen = set()
+    judged = []
+    for f in [g for sfx in (HSF, HCF, HMF) for g in fb.in_file(sfx) if g.ok]:
+        if (f.file, f.line) in seen:
+            continue
+        finds = {}                  # d of the separator position -> (object text, d of the start position)
+        for e in f.stmts():
+            n = e.node
+            pairs = [(v["d"], v.get("init")) for v in n["vars"]] if n.get("k") == "decl" else []
+            if is_assign(n):
+                lhs, op, rhs = _ap(n)
+                if op == "=" and strip_casts(lhs).get("k") == "var":
+                    pairs.append((strip_casts(lhs)["d"], rhs))
+            for d, init in pairs:
+                i0 = strip_casts(init) if isinstance(init, dict) else None
+                if i0 is not None and i0.get("k") == "mcall" and last(i0.get("callee", "")) == "find" and len(i0.get("args", [])) == 2 \
+                        and strip_casts(i0["args"][0]).get("k") == "char" and strip_casts(i0["args"][1]).get("k") == "var":
+                    finds[d] = (show(strip_casts(i0.get("obj"))), strip_casts(i0["args"][1])["d"], strip_casts(i0["args"][1])["n"])
+        for e in f.stmts():
+            n = e.node
+            if not is_assign(n):
+                continue
+            lhs, op, rhs = _ap(n)
+            l0, r0 = strip_casts(lhs), strip_casts(rhs)
+            if not (op == "=" and l0.get("k") == "var" and r0 is not None and r0.get("k") == "bin" and r0.get("op") == "+"):
+                continue
+            sd = strip_casts(r0["lhs"]).get("d") if strip_casts(r0["lhs"]).get("k") == "var" else None
+            k = const_value(strip_casts(r0["rhs"]))
+            if sd not in finds or finds[sd][1] != l0["d"] or not isinstance(k, int) or k < 1:
+                continue
+            obj, pd, pn = finds[sd]
+            seen.add((f.file, f.line))
+            # the loop tests that read the position and lie on a cycle through this assignment
+            heads = [b for b in f.blocks.values() if b.term and b.term.get("k") in ("WhileStmt", "ForStmt", "DoStmt") and b.cond is not None
+                     and any(x.get("k") == "var" and x.get("d") == pd for x in walk(b.cond))]
+            r.instance()
+            if not heads:
+                r.expect(True, f, e, "list scan", "", okdesc="%s: the scan loop has no exit on the position" % short(f.name))
+                if any(x.node.get("k") == "throw" for x in f.stmts()):
+                    judged.append(short(f.name))        # a rejecting scan that can only leave by break / return: every element is examined
+                continue
+            for b in heads:
+                # the loop's body: blocks reachable from the true edge without passing the test again, from which the test is reachable
+                def reach(start, stop):
+                    out, todo = set(), [start]
+                    while todo:
+                        x = todo.pop()
+                        if x is None or x in out or x == stop:
+                            continue
+                        out.add(x)
+                        todo.extend(y for y in f.blocks[x].succs if y is not None)
+                    return out
+                fwd = reach(b.succs[0], b.id)
+                after = reach(b.succs[1], None) if len(b.succs) > 1 else set()          # where `break` and the false edge go
+                rejecting = [x for bid in fwd - after for x in f.blocks[bid].elems if x.kind == "stmt" and x.node is not None and "root" in x.raw and
+                             (x.node.get("k") == "throw" or (x.node.get("k") == "ret" and const_value(strip_casts(x.node.get("v") or {})) == 0))]
+                if not rejecting:
+                    # a scan that only collects (e.g. remembers the last token): an empty last element changes nothing; not judged
+                    r.expect(True, f, e, "list scan", "", okdesc="%s: the scan rejects nothing (collects only) — an empty last element cannot matter" % short(f.name))
+                    continue
+                def sub(x):
+                    if isinstance(x, dict):
+                        if x.get("k") == "mcall" and last(x.get("callee", "")) in ("size", "length") and show(strip_casts(x.get("obj"))) == obj:
+                            return {"k": "var", "n": "__n", "t": "unsigned long", "d": -1}
+                        return {kk: sub(vv) for kk, vv in x.items()}
+                    if isinstance(x, list):
+                        return [sub(y) for y in x]
+                    return x
+                try:
+                    fnc = compile_expr(sub(strip_casts(b.cond)), [pn, "__n"])[0]
+                except NotPure as ex:
+                    raise AnalysisBroken("%s: the list-scan loop test `%s` is outside the pure fragment (%s)" % (short(f.name), show(b.cond)[:50], ex))
+                judged.append(short(f.name))
+                bad = [(nn, sp) for nn in range(0, 9) for sp in range(0, nn) if not fnc(sp + k, nn)]
+                r.expect(not bad, f, b.elems[-1] if b.elems else e, "list scan stops before the last element",
+                         "%s: after `%s` the loop test `%s` is false for a separator at position %s of a %s-byte value: the element behind the last separator "
+                         "(an empty one: `5,`) is never validated and the list is accepted" % (short(f.name), show(n)[:40], show(b.cond)[:40], bad[0][1] if bad else "", bad[0][0] if bad else ""),
+                         okdesc="%s: `%s` holds after every `%s` (sizes 0..8, every separator position)" % (short(f.name), show(b.cond)[:40], show(n)[:30]))
+    if not judged:
+        raise AnalysisBroken("no rejecting separator-delimited list scan with a test on the position was found (confirmed on the pinned tree: HttpClient::parseContentLength)")
+    r.floor(1, "separator-delimited list scans")
+
+
 def run(ctx, ck):
     r0 = ck.run_rule("C15-R0", "the local names the rules are anchored on exist (a rename makes the analysis refuse — exit 2 — instead of raising a false alarm)", "anchor table", lambda r: anchors(ctx, r))
     if r0.broken:
@@ -1865,3 +1957,4 @@ def run(ctx, ck):
     ck.run_rule("C15-R6", "decisions use the accumulated buffer only; exact consumption; resume positions back up len-1 / are validated record boundaries", "A2 + dataflow (segment dead after append) + resume-scan rule (origin tracing of scan starts)", lambda r: r6(ctx, r))
     ck.run_rule("C15-R7", "client framing decision follows RFC 9112 §6.3 order", "A5 predicate abstraction", lambda r: r7(ctx, r))
     ck.run_rule("C15-R8", "recognised chunked coding is decoded before Request::body; trailer section consumed", "A10 sibling agreement + A2", lambda r: r8(ctx, r))
+    ck.run_rule("C15-R9", "a separator-delimited length list is scanned to its last element (the element behind the last separator is validated)", "A6 exact finite-domain evaluation of the loop test after `pos = sep + k`", lambda r: r9(ctx, r))
